@@ -4,7 +4,7 @@ sys.path.insert(0, os.path.join(HERE, 'lib'))
 import vrun, irb
 
 META = dict(
-    functions=['mmd.c: mmd_assign_ambidextrous_tokens_in_block', 'scanners.c: all 29 scan_* functions (Engine B: clang -O1 IR -> flat C, translation validated against the real functions on tests/MMD6Tests every run)'],
+    functions=['mmd.c: mmd_assign_ambidextrous_tokens_in_block, mmd_engine_reset', 'writer.c: footnote_free, link_free, meta_free', 'token.c: token_free, token_tree_free (pool disabled)', 'scanners.c: all 29 scan_* functions (Engine B: clang -O1 IR -> flat C, translation validated against the real functions on tests/MMD6Tests every run)'],
     stubs=['byte arena MEM[] with an explicit valid window [buf, buf+len] (NUL included) for the IR-derived scanners'],
     assumptions=['input is a NUL-terminated buffer; every byte value allowed'],
     outside=['epub.c, zip.c/miniz.c, textbundle.c, packaging, uthash macro bodies, argtable3, file.c I/O', 'defects that need more than N bytes or K tokens to trigger', 'interaction between units beyond the span invariant of C15'],
@@ -34,6 +34,11 @@ def harnesses(tier):
                    unwind=AN + 4, unwindset=['mmd_assign_ambidextrous_tokens_in_block:2'], timeout=1500, mem_gb=8, slice=True,
                    bounds='every source of 1..%d bytes, one delimiter token of 14 look-around kinds at every offset (incl. first and last byte), all extension sets' % AN,
                    desc='mmd_assign_ambidextrous_tokens_in_block: look-behind/look-ahead never leaves the source'))
+    hs.append(dict(name='c01_reset_ownership', src='c05/reset.c', defs=dict(OWNERSHIP=1, DS_CAP=8), pool_off=True,
+                   units=['repo:mmd.c', 'repo:writer.c', 'repo:token.c', 'repo:stack.c', 'repo:object_pool.c', 'repo:char.c', 'common/ds_model.c'],
+                   unwind=12, unwindset=['token_free:5', 'token_tree_free:5'], timeout=900, mem_gb=8, slice=True,
+                   bounds='engine with a 3-token tree, notes of all four kinds whose content is shared with the tree or owned, 0..2 further entries per stack',
+                   desc='mmd_engine_reset with the pool disabled: every token and note freed exactly once (no double free, no use after free)'))
     return hs
 
 CLAIM = dict(
